@@ -12,11 +12,16 @@ for id in $ids; do
   git -C /repo worktree add -q $wt HEAD || { echo "$id: cannot create worktree"; continue; }
   if ! git -C $wt apply $d/patch.diff 2>/dev/null; then echo "$id property=$prop: patch does not apply to HEAD"; git -C /repo worktree remove --force $wt; continue; fi
   suite=ok
-  (cd $wt && go build ./... >/dev/null 2>&1 && go test ./... >/dev/null 2>&1) || suite=FAILS
+  if [ -n "${SKIP_SUITE:-}" ]; then
+    suite=skipped
+    (cd $wt && go build ./... >/dev/null 2>&1) || suite=FAILS
+  else
+    (cd $wt && go build ./... >/dev/null 2>&1 && go test ./... >/dev/null 2>&1) || suite=FAILS
+  fi
   out=$(cd $V && VERIF_REPO=$wt ./check $prop 2>&1)
   rc=$?
   if echo "$out" | grep -q "^VIOLATION property=$prop"; then verdict=caught; else verdict="MISSED(exit $rc)"; fi
-  echo "$id property=$prop suite=$suite check=$verdict $(echo "$out" | grep -A1 "^VIOLATION" | sed -n 2p | cut -c1-160)"
+  echo "seed=${VERIF_SEED:-1} $id property=$prop suite=$suite check=$verdict $(echo "$out" | grep -A1 "^VIOLATION" | sed -n 2p | cut -c1-160)"
   git -C /repo worktree remove --force $wt
   rm -rf $wt
 done
